@@ -22,7 +22,7 @@ mutual
 def specItem (owner : String) (R : Code) (T : Option Code) : Item → List Ev
   | .ret o => [⟨owner, R, o.map (resolveSpec T)⟩]
   | .blk b => specItems owner R T b
-  | .st arg ms => specMethods (some (resolveSpec T arg)) ms
+  | .st _ arg ms => specMethods (some (resolveSpec T arg)) ms
   | .ft name rt arg b => specItems name (resolveSpec (some (resolveSpec T arg)) rt) (some (resolveSpec T arg)) b
 def specItems (owner : String) (R : Code) (T : Option Code) : Items → List Ev
   | .nil => []
@@ -37,7 +37,7 @@ def directRets : Items → List (Option TyRef)
   | .nil => []
   | .cons (.ret o) r => o :: directRets r
   | .cons (.blk b) r => directRets b ++ directRets r
-  | .cons (.st _ _) r => directRets r
+  | .cons (.st _ _ _) r => directRets r
   | .cons (.ft _ _ _ _) r => directRets r
 
 /-- what the language allows: a value of type `got` (`none`: no value) returned from a function of type `want` -/
@@ -162,12 +162,13 @@ theorem elabItem_spec (owner : String) (chain : List Frame) (R : Code) (it : Ite
         refine ⟨popScope_cons (currentRet_ne_nil hR) hp, ?_⟩
         rw [ih.2]
         simp [specItem]
-  | st arg ms =>
+  | st decl arg ms =>
     simp only [elabItem] at h
     split at h
     · cases h
     · rename_i a ha
       split at h
+      · cases h
       · cases h
       · rename_i c1 e1 hm
         have ih := elabMethods_spec (({ targ := some a } : Frame) :: rootChain) ms c1 e1 (by simp) hm
@@ -265,11 +266,12 @@ theorem elabItem_returnable (owner : String) (chain : List Frame) (it : Item) (c
       split at h
       · cases h
       · cases h; exact elabItems_returnable owner _ b _ _ hb
-  | st arg ms =>
+  | st decl arg ms =>
     simp only [elabItem] at h
     split at h
     · cases h
     · split at h
+      · cases h
       · cases h
       · rename_i c1 e1 hm
         split at h
@@ -349,7 +351,7 @@ theorem directRets_spec (owner : String) (R : Code) (T : Option Code) (b : Items
     rcases ho with ho | ho
     · exact Or.inl (directRets_spec owner R T b' o ho)
     · exact Or.inr (directRets_spec owner R T r o ho)
-  | .cons (.st _ _) r =>
+  | .cons (.st _ _ _) r =>
     intro o ho
     simp only [directRets] at ho
     simp only [specItems, List.mem_append]
@@ -417,18 +419,18 @@ theorem methods_return_their_own_types (chain : List Frame) (ms : Methods) (c : 
     function's return is converted to `int2`, the method's to `float` -/
 example :
     elabItems "g" ({ fnRet := some .i2 } :: rootChain)
-      (.cons (.st (.lit .f) (.cons "get" .tparam (.cons (.ret (some .tparam)) .nil) .nil)) (.cons (.ret (some (.lit .f2))) .nil))
+      (.cons (.st true (.lit .f) (.cons "get" .tparam (.cons (.ret (some .tparam)) .nil) .nil)) (.cons (.ret (some (.lit .f2))) .nil))
     = .ok ({ fnRet := some .i2 } :: rootChain, [⟨"get", .f, some .f⟩, ⟨"g", .i2, some .f2⟩]) := by rfl
 
 /-- `float f() { B<S0> b; return gs0; }` (the demonstration of seeded mutant C03-6): rejected, expected type `float` -/
 example :
     elabItems "f" ({ fnRet := some .f } :: rootChain)
-      (.cons (.st (.lit .s0) (.cons "get" .tparam (.cons (.ret (some .tparam)) .nil) .nil)) (.cons (.ret (some (.lit .s0))) .nil))
+      (.cons (.st true (.lit .s0) (.cons "get" .tparam (.cons (.ret (some .tparam)) .nil) .nil)) (.cons (.ret (some (.lit .s0))) .nil))
     = .error (.wrongReturn .s0 .f) := by rfl
 
 /-- hypotheses of the rejection theorem are satisfiable: that program has the direct return `gs0`, not returnable from `float` -/
 example : (some (.lit .s0) : Option TyRef) ∈ directRets
-      (.cons (.st (.lit .s0) (.cons "get" .tparam (.cons (.ret (some .tparam)) .nil) .nil)) (.cons (.ret (some (.lit .s0))) .nil))
+      (.cons (.st true (.lit .s0) (.cons "get" .tparam (.cons (.ret (some .tparam)) .nil) .nil)) (.cons (.ret (some (.lit .s0))) .nil))
     ∧ ¬ Returnable ((some (.lit .s0) : Option TyRef).map (resolveSpec (currentT rootChain))) .f :=
   ⟨by simp [directRets], by simp [Returnable, resolveSpec, conv, Code.numeric]⟩
 
@@ -436,7 +438,7 @@ example : (some (.lit .s0) : Option TyRef) ∈ directRets
 example :
     elabItems "h" ({ fnRet := some .s1 } :: rootChain)
       (.cons (.ft "ft" .tparam (.lit .i2)
-          (.cons (.st .tparam (.cons "m0" (.lit .void) (.cons (.ret none) .nil) (.cons "m1" .tparam (.cons (.ret (some (.lit .b))) .nil) .nil)))
+          (.cons (.st false .tparam (.cons "m0" (.lit .void) (.cons (.ret none) .nil) (.cons "m1" .tparam (.cons (.ret (some (.lit .b))) .nil) .nil)))
             (.cons (.blk (.cons (.ret (some .tparam)) .nil)) .nil)))
         (.cons (.ret (some (.lit .s1))) .nil))
     = .ok ({ fnRet := some .s1 } :: rootChain,
